@@ -206,6 +206,11 @@ MUTATIONS = [
       old="lambda pre, is_greedy: pre.optional(is_greedy))", new="lambda pre, is_greedy: pre.optional())"),
  dict(id="h-optional-class-via-at-most-one", kind="harmless", props=["C04", "C02"], file="src/pregex/core/quantifiers.py",
       old="lambda pre, is_greedy: pre.optional(is_greedy))", new="lambda pre, is_greedy: pre.at_most(1, is_greedy))"),
+ # text layer helpers decided by data independence (F2)
+ dict(id="t-split-range-always-rsplit", kind="break", props=["C07"], file=CLS,
+      old='return pattern.split("-", 1) if pattern[-1] == "-" else pattern.rsplit("-", 1)', new='return pattern.rsplit("-", 1)'),
+ dict(id="h-split-range-count-by-comprehension", kind="harmless", props=["C07"], file=CLS,
+      old='count = pattern.count("-")', new='count = len([ch for ch in pattern if ch == "-"])'),
  # ---- history (C20) ----------------------------------------------------------------------------------------------
  dict(id="s-concat-caches-on-self", kind="break", props=["C20"], file=PRE,
       old="        pattern = self._concat_conditional_group()\n        pre = pre._concat_conditional_group()",
